@@ -79,7 +79,7 @@ def run(ctx):
                 ctx.ob('R12.1', 'no explicit panic', False, ctx.where(b, t.line), '/'.join(sorted(names)), construct='panic:explicit:' + b.name)
     ctx.count('panic_sites', n)
     poscontrol.assert_controls(ctx, ['panic:', 'assert:'])
-    ctx.floor('R12.1', 'panic sites examined in the unmanaged module', n, 8)
+    ctx.floor('R12.1', 'panic sites examined in the unmanaged module', n, 5)
     # Object.obj is emptied only by consuming / final functions
     for b in r.bodies():
         an = prog.an(b)
